@@ -43,7 +43,7 @@ static void on_cpu_limit(int)
 }
 static int cpu_limit(const Plan &p)
 {
-	for (auto &o : p.ops) if (o.name.compare(0, 5, "sweep") == 0) return 900;	// exhaustive sweeps are legitimately long
+	for (auto &o : p.ops) if (o.name.compare(0, 5, "sweep") == 0 || o.name.compare(0, 4, "huge") == 0) return 900;	// exhaustive sweeps are legitimately long
 	return 30;
 }
 static void watchdog(int seconds)
